@@ -12,11 +12,13 @@ def run(R, tier, seed, only=None):
     fam = families.family_c01(tier, seed)
     jobs = [("c_prog", tag, prog, {"k": k, "timeout_ms": 20000 if tier == "quick" else 120000}) for tag, prog in fam]
     propcheck.run_family(R, drv, jobs, "relational-core")
+    jobs = [("c_prog_generic", "sql.generic:" + tag, prog, {"k": k, "timeout_ms": 20000 if tier == "quick" else 120000}) for tag, prog in fam]
+    propcheck.run_family(R, drv, jobs, "relational-core/sql.generic")
     R.cov["bounds"] = {"rows_per_table": k, "tables": 3, "value_range": "|v| <= 2^20", "pipeline_length": "<=2 exhaustive + slice of 3 (quick); <=3 exhaustive + slice of 4 (thorough)",
                        "alphabet": sorted(families.ALPHABET)}
     R.cov["functions_encoded"] = ["whole compiler run concretely per program (prqlc::compile); emitted SQL encoded by engines/symdb/sqlsem.py"]
     R.cov["trusted_base"] = propcheck.TRUSTED
-    R.cov["outside_bounds"] = ["loop", "s-strings", "text/float/date data", "dialects other than sqlite/generic", "pipelines longer than the stated length"]
+    R.cov["outside_bounds"] = ["loop", "s-strings", "text/float/date data", "dialects other than sqlite/generic (generic: decided where its text differs from the sqlite target's)", "pipelines longer than the stated length"]
     R.assumptions += propcheck.COMMON_ASSUMPTIONS
 
 
